@@ -283,6 +283,12 @@ static void pilot_func(void *vp)
     memcpy(ep, &r, 8);
 }
 
+static void *interlude_thread(void *arg)
+{
+    pilot_func(arg);
+    return NULL;
+}
+
 static void fill(unsigned char *a)
 {
     memset(a, 0, (size_t)16 * SZ);
@@ -316,6 +322,10 @@ static void run_one(void)
         in_experiment = false;
         cimba_run_experiment(pilot_el, 1u, sizeof pilot_el, pilot_func);
         __builtin_ia32_ldmxcsr(0x1f80);
+        /* ... and the program goes on using the library between its experiments, on a thread of its own */
+        pthread_t it;
+        __real_pthread_create(&it, NULL, interlude_thread, pilot_el);
+        __real_pthread_join(it, NULL);
     }
     /* the real thing first: whatever its worker threads leave behind when they exit (they run the library's
      * thread clean-up) is then met by the sequential reference below and by the next execution's experiment -
